@@ -12,3 +12,6 @@ open Neutrino.BM
 #print axioms C19_replay_cfwrite
 #print axioms loop_trace
 #print axioms rollBack_trace
+#print axioms C19_replay
+#print axioms C19_backlog_replay
+#print axioms C19_filter_tip_consistent
